@@ -14,7 +14,11 @@ core.ensure_coq_makefile()
 targets = [s[:-2] + ".vo" for s in core.coq_sources() if not s.startswith("extract/")]
 ok, out = core.build_coq(targets, timeout=3000)
 print(out[-4000:])
-if not ok: sys.exit("coq build failed")
+if not ok:
+    import re
+    for m in re.finditer(r'File "[^"]+", line \d+[^\n]*\n(?:.*\n){0,12}?.*Error:(?:.*\n){0,8}', out):
+        print("----\n" + m.group(0))
+    sys.exit("coq build failed")
 ok, out = core.build_runner()
 print(out[-2000:])
 if not ok: sys.exit("runner build failed")
